@@ -61,6 +61,11 @@ class PatchList:
         out = "boundary\n(\n"
 
         for _, patch in self.patches.items():
+            # a patch whose operations were all deleted is kept (with its type and settings)
+            # for the next assembly but has nothing to be written
+            if len(patch.sides) == 0:
+                continue
+
             out += patch.description
 
         out += ");\n\n"
